@@ -22,4 +22,5 @@ if "sql" in r:
 else:
     for e in r.get("errors") or []: print("ERR:", e.get("reason"), e.get("hints"))
     if "panic" in r: print("PANIC", r["panic"])
+print("FRAME:", r.get("rqcheck", {}).get("frame"))
 if r.get("rqcheck", {}).get("violations"): print("RQ:", r["rqcheck"]["violations"])
